@@ -736,3 +736,59 @@ package profile
 //@   loop 4
 //@     invariant 0 <= $i && $i <= len(reMap) && len(values) == len(sTypes) && len(reMap) == len(sTypes) && s != nil && len(s.Value) == len(oldSampleTypes)
 //@     invariant forall j int :: 0 <= j && j < len(reMap) ==> 0 <= reMap[j] && reMap[j] < len(oldSampleTypes)
+
+// ---- C06 (strengthened after seeded change taghide-skipped-when-tagshow-set): label key removal rule ----
+// matchRemove (closure of FilterTagsByName): a key is removed iff it is not shown or it is hidden; both
+// "matched" flags accumulate independently.
+//@ func Profile.FilterTagsByName$1
+//@   ensures remove: result <==> !(show == nil || match(show, name)) || (hide != nil && match(hide, name))
+//@   ensures shown: sm <==> old(sm) || show == nil || match(show, name)
+//@   ensures hidden: hm <==> old(hm) || (hide != nil && match(hide, name))
+
+// ---- C06 (strengthened after seeded changes hide-show-empty-check-merged, focus-ignore-evaluated-after-hide-show) ----
+//@ spec func locmatch(loc *Location, re *regexp.Regexp) bool = (exists i int :: 0 <= i && i < len(loc.Line) && linematch(loc, re, i)) || mapmatch(loc, re)
+//@ spec func linekeep(loc *Location, re *regexp.Regexp, i int) bool = loc.Line[i].Function == nil || linematch(loc, re, i)
+
+//@ func Location.unmatchedLines
+//@   requires loc != nil && re != nil
+//@   ensures whole: mapmatch(loc, re) ==> len(result) == 0
+//@   ensures empty: !mapmatch(loc, re) ==> (len(result) == 0 <==> forall i int :: 0 <= i && i < len(loc.Line) ==> linematch(loc, re, i))
+//@   ensures shorter: len(result) <= len(loc.Line) && len(loc.Line) == old(len(loc.Line))
+//@   loop 1
+//@     invariant 0 <= $i && $i <= len(loc.Line) && len(lines) <= $i
+//@     invariant len(lines) == 0 <==> forall j int :: 0 <= j && j < $i ==> linematch(loc, re, j)
+
+//@ func Location.matchedLines
+//@   requires loc != nil && re != nil
+//@   ensures whole: mapmatch(loc, re) ==> len(result) == len(loc.Line)
+//@   ensures empty: !mapmatch(loc, re) ==> (len(result) == 0 <==> forall i int :: 0 <= i && i < len(loc.Line) ==> !linekeep(loc, re, i))
+//@   ensures shorter: len(result) <= len(loc.Line) && len(loc.Line) == old(len(loc.Line))
+//@   loop 1
+//@     invariant 0 <= $i && $i <= len(loc.Line) && len(lines) <= $i
+//@     invariant len(lines) == 0 <==> forall j int :: 0 <= j && j < $i ==> !linekeep(loc, re, j)
+
+// FilterSamplesByName, location pass: a location is classified focused/ignored by what it matched BEFORE hide/show
+// rewrote its lines, and it is hidden only because hide matched it or because show is given.
+//@ func Profile.FilterSamplesByName
+//@   requires p != nil
+//@   requires forall i int :: 0 <= i && i < len(p.Location) ==> p.Location[i] != nil
+//@   requires forall i int, j int :: 0 <= i && i < j && j < len(p.Location) ==> p.Location[i] != p.Location[j] && p.Location[i].ID != p.Location[j].ID
+//@   requires forall k int :: 0 <= k && k < len(p.Sample) ==> p.Sample[k] != nil
+//@   requires forall k int, q int :: 0 <= k && k < len(p.Sample) && 0 <= q && q < len(p.Sample[k].Location) ==> p.Sample[k].Location[q] != nil
+//@   loop 1
+//@     invariant 0 <= $i && $i <= len(p.Location) && p != nil && focusOrIgnore != nil && hidden != nil && len(p.Location) == old(len(p.Location))
+//@     invariant forall i int :: 0 <= i && i < len(p.Location) ==> p.Location[i] != nil && p.Location[i] == old(p.Location[i]) && p.Location[i].ID == old(p.Location[i].ID)
+//@     invariant untouched: forall j int :: $i <= j && j < len(p.Location) ==> same_elems(p.Location[j].Line, old(p.Location[j].Line)) && len(p.Location[j].Line) == old(len(p.Location[j].Line))
+//@     invariant ignored: forall j int :: 0 <= j && j < $i && ignore != nil && old(locmatch(p.Location[j], ignore)) ==> has(focusOrIgnore, p.Location[j].ID) && !focusOrIgnore[p.Location[j].ID]
+//@     invariant slow_focused: forall j int :: 0 <= j && j < $i && !(ignore != nil && old(locmatch(p.Location[j], ignore))) && (focus == nil || old(locmatch(p.Location[j], focus))) ==> has(focusOrIgnore, p.Location[j].ID) && focusOrIgnore[p.Location[j].ID]
+//@     invariant slow_neither: forall j int :: 0 <= j && j < $i && !(ignore != nil && old(locmatch(p.Location[j], ignore))) && !(focus == nil || old(locmatch(p.Location[j], focus))) ==> !has(focusOrIgnore, p.Location[j].ID)
+//@     invariant hidden_why: forall j int :: 0 <= j && j < $i && has(hidden, p.Location[j].ID) && hidden[p.Location[j].ID] ==> (hide != nil && old(locmatch(p.Location[j], hide))) || show != nil
+//@     invariant later_ids: forall j int :: $i <= j && j < len(p.Location) ==> !has(focusOrIgnore, p.Location[j].ID) && !has(hidden, p.Location[j].ID)
+//@   loop 2
+//@     invariant 0 <= $i && $i <= len(p.Sample) && p != nil && focusOrIgnore != nil && hidden != nil
+//@     invariant forall k int :: 0 <= k && k < len(p.Sample) ==> p.Sample[k] != nil
+//@     invariant forall k int, q int :: 0 <= k && k < len(p.Sample) && 0 <= q && q < len(p.Sample[k].Location) ==> p.Sample[k].Location[q] != nil
+//@   loop 3
+//@     invariant 0 <= $i && $i <= len(sample.Location) && sample != nil
+//@     invariant forall q int :: 0 <= q && q < len(locs) ==> locs[q] != nil
+//@     invariant forall q int :: 0 <= q && q < len(sample.Location) ==> sample.Location[q] != nil
